@@ -9,7 +9,7 @@ pub(crate) fn mk_regions(slots: usize) -> Regions {
     pfs::state().files[pfs::REGIONS].len = slots * SIZE_OF_REGION_METADATA;
     Regions {
         id_to_index: HashMap::new(),
-        index_to_region: Vec::with_capacity(8),
+        index_to_region: Vec::with_capacity(4),
         file: File::verif_new(pfs::REGIONS),
         mmap: PMmap::verif_new(pfs::REGIONS, slots * SIZE_OF_REGION_METADATA),
     }
@@ -20,7 +20,7 @@ pub(crate) fn mk_regions(slots: usize) -> Regions {
 /// filled through raw writes.
 pub(crate) fn add(rs: &mut Regions, id: &str, region: &Region, with_id: bool) {
     let n = rs.index_to_region.len();
-    assert!(region.index() == n && n < 8);
+    assert!(region.index() == n && n < 4);
     unsafe {
         rs.index_to_region.as_mut_ptr().add(n).write(Some(region.clone()));
         rs.index_to_region.set_len(n + 1);
